@@ -649,3 +649,18 @@ fn_t _soxr_vr32_cb[] = {
   (fn_t)vr_set_io_ratio,
   (fn_t)vr_id,
 };
+
+#if defined SOXR_VERIF /* Verification hook (add-only): export the control state of a variable-rate channel. */
+#include <stdio.h>
+void _soxr_verif_vr_state(rate_t * p, FILE * f);
+void _soxr_verif_vr_state(rate_t * p, FILE * f)
+{
+  int i;
+  fprintf(f, "VR ns0=%d ns=%d fl=%d fade=%d slew=%d xfade=%d inc=%d sw=%d newr=%.17g defr=%.17g oocc=%d occ=",
+    p->num_stages0, p->num_stages, p->flushing, p->fade_len, p->slew_len, p->xfade, p->stage_inc, p->switch_stage_num, p->new_io_ratio, p->default_io_ratio, fifo_occupancy(&p->output_fifo));
+  for (i = -1; i < p->num_stages; ++i) fprintf(f, "%d/%d/%d,", fifo_occupancy(&p->stages[i].fifo), p->stages[i].is_fast, p->stages[i].x_fade_len);
+  fprintf(f, " cur=%lld/%lld/%lld/%d/%d/%d fo=%lld/%lld/%lld/%d/%d/%d\n",
+    (long long)p->current.at.all, (long long)p->current.step.all, (long long)p->current.step_step.all, p->current.len, p->current.stage_num, (int)p->current.is_d,
+    (long long)p->fadeout.at.all, (long long)p->fadeout.step.all, (long long)p->fadeout.step_step.all, p->fadeout.len, p->fadeout.stage_num, (int)p->fadeout.is_d);
+}
+#endif
